@@ -1,5 +1,1666 @@
-//! asyncsim — the real `quinn` crate on a deterministic single-threaded executor (C18).
-//! Owned by the C18 builder; `run_case` receives one case (list of ops) and returns the trace.
-pub fn run_case(_ops: &[Vec<i128>]) -> Vec<Vec<i128>> {
-    vec![vec![-1]]
+//! asyncsim — the REAL `quinn` crate on a deterministic single-threaded executor (C18).
+//!
+//! One client endpoint (10.0.0.1:40000) and one server endpoint (10.0.0.2:4433) built with
+//! `Endpoint::new_with_abstract_socket` on an in-memory `AsyncUdpSocket` pair joined by a seeded
+//! lossy / duplicating / reordering virtual network; a custom `quinn::Runtime` (virtual `now()`,
+//! `AsyncTimer`s on the virtual clock, `spawn` onto our run queue). A seeded scheduler repeatedly
+//! picks ONE runnable task (endpoint drivers, connection drivers, scripted application tasks) and
+//! polls it once with a waker that marks the task runnable. Virtual time advances to the next
+//! timer / packet delivery only when nothing is runnable. Application tasks are small scripted
+//! futures; every quinn operation they await goes through `op!`, which may DROP the pending
+//! future at a poll boundary (cancellation) and later create a fresh one continuing the job.
+//! When nothing is runnable and nothing is scheduled the run is QUIESCENT: every task still alive
+//! is polled once more ("forced"); an operation that completes in a forced poll had its wake-up
+//! lost. Parameters and record layouts: TRACE.md, section "asyncsim".
+use crate::sim::{Rng, P};
+use bytes::Bytes;
+use quinn::{
+    AsyncTimer, AsyncUdpSocket, ClientConfig, Connection, ConnectionError, Endpoint,
+    EndpointConfig, IdleTimeout, ReadError, RecvStream, Runtime, SendStream, ServerConfig,
+    TransportConfig, UdpSender, VarInt, WriteError,
+};
+use std::cell::{Cell, RefCell};
+use std::collections::{BTreeMap, VecDeque};
+use std::future::Future;
+use std::io::{self, IoSliceMut};
+use std::net::{IpAddr, Ipv4Addr, SocketAddr};
+use std::pin::Pin;
+use std::rc::Rc;
+use std::sync::atomic::{AtomicBool, AtomicI64, AtomicU64, Ordering};
+use std::sync::{Arc, Mutex};
+use std::task::{Context, Poll, Wake, Waker};
+use std::time::{Duration, Instant};
+
+pub mod k {
+    pub const SEED: i128 = 1;
+    pub const LOSS: i128 = 2;
+    pub const DUP: i128 = 3;
+    pub const DELAY_MIN: i128 = 4;
+    pub const DELAY_MAX: i128 = 5;
+    pub const NBIDI: i128 = 9;
+    pub const NUNI: i128 = 10;
+    pub const STREAM_BYTES: i128 = 11;
+    pub const WRITE_CHUNK: i128 = 12;
+    pub const READ_MAX: i128 = 13;
+    pub const READ_MODE: i128 = 14; // 0 read(buf) 1 read_chunk 2 read_to_end (never cancelled) 3 read_chunks
+    pub const NDGRAM: i128 = 15;
+    pub const DGRAM_SIZE: i128 = 16;
+    pub const ECHO_BYTES: i128 = 17;
+    pub const CANCEL: i128 = 18; // per mille: drop a pending cancel-safe future at a poll boundary
+    pub const END_MODE: i128 = 19; // 0 client close() 1 client drops every handle 2 server close() 3 server Endpoint::close 4 client Endpoint::close
+    pub const IDLE_MS: i128 = 20; // 0 = no idle timeout
+    pub const SEND_WINDOW: i128 = 24;
+    pub const STREAM_RWND: i128 = 25;
+    pub const RWND: i128 = 26;
+    pub const MAX_BIDI: i128 = 27;
+    pub const MAX_UNI: i128 = 28;
+    pub const NACCEPTORS: i128 = 30;
+    pub const WRITE_MODE: i128 = 31; // 0 write loop 1 write_all (never cancelled) 2 write_chunks loop
+    pub const STOPPED_WAIT: i128 = 32; // 0 no 1 stopped() after finish 2 reset() then stopped() (known class)
+    pub const HANG_OPS: i128 = 33; // bit mask of client tasks blocked until the connection closes
+    pub const SEND_BLOCK: i128 = 34; // per mille: the socket reports back-pressure
+    pub const DGRAM_SEND_BUF: i128 = 35;
+    pub const READ_DELAY_US: i128 = 36; // server readers sleep before every read
+    pub const STOP_AT: i128 = 37; // server reader of the first uni stream stops after that many bytes
+    pub const RESET_AT: i128 = 38; // writer of the first uni stream resets after that many bytes
+    pub const SPURIOUS: i128 = 39; // per mille: poll a task that was not woken
+    pub const CLOSE_AT_US: i128 = 40; // > 0: END_MODE action at that time even if jobs are running
+    pub const IOERR_AFTER: i128 = 41; // >= 0: the client's socket fails every send after that many
+    pub const IMPLICIT_FINISH: i128 = 42; // 1: writers of uni streams drop the SendStream instead of calling finish()
+    pub const STOP_BY_DROP: i128 = 43; // 1: at STOP_AT the reader drops the RecvStream instead of calling stop()
+    pub const MAX_TIME: i128 = 52;
+}
+
+// operation kinds (field `opkind`)
+pub const O_CONNECT: i128 = 1;
+pub const O_EP_ACCEPT: i128 = 2;
+pub const O_OPEN_UNI: i128 = 3;
+pub const O_OPEN_BI: i128 = 4;
+pub const O_ACCEPT_UNI: i128 = 5;
+pub const O_ACCEPT_BI: i128 = 6;
+pub const O_READ: i128 = 7;
+pub const O_WRITE: i128 = 8;
+pub const O_STOPPED: i128 = 9;
+pub const O_READ_DGRAM: i128 = 10;
+pub const O_SEND_DGRAM: i128 = 11;
+pub const O_CLOSED: i128 = 12;
+pub const O_WAIT_IDLE: i128 = 13;
+pub const O_READ_TO_END: i128 = 14;
+pub const O_WRITE_ALL: i128 = 15;
+pub const O_HS_CONFIRMED: i128 = 16;
+pub const O_STOPPED_DETACHED: i128 = 17;
+pub const O_SLEEP: i128 = 90;
+pub const O_INTERNAL: i128 = 91;
+
+// ------------------------------------------------------------------------------------------
+// shared simulation state
+struct Pkt {
+    at: u64,
+    seq: u64,
+    dst: usize,
+    src: SocketAddr,
+    data: Vec<u8>,
+}
+struct SockSt {
+    addr: SocketAddr,
+    inbox: VecDeque<(SocketAddr, Vec<u8>)>,
+    rwaker: Option<Waker>,
+    sends: u64,
+}
+struct Inner {
+    net_rng: Rng,
+    timers: BTreeMap<u64, (u64, Option<Waker>)>,
+    next_timer: u64,
+    net: Vec<Pkt>,
+    seq: u64,
+    socks: Vec<SockSt>,
+    loss: i128,
+    dup: i128,
+    dmin: u64,
+    dmax: u64,
+    send_block: i128,
+    ioerr_after: i128,
+}
+struct Sh {
+    base: Instant,
+    now: AtomicU64,
+    cur: AtomicI64,
+    opid: AtomicU64,
+    trace: Mutex<Vec<Vec<i128>>>,
+    inner: Mutex<Inner>,
+}
+impl Sh {
+    fn t(&self) -> i128 {
+        self.now.load(Ordering::Relaxed) as i128
+    }
+    fn log(&self, r: Vec<i128>) {
+        self.trace.lock().unwrap().push(r);
+    }
+    fn us_of(&self, i: Instant) -> u64 {
+        if i <= self.base {
+            0
+        } else {
+            ((i.duration_since(self.base).as_nanos() + 999) / 1000) as u64
+        }
+    }
+}
+
+enum NewTask {
+    Quinn(usize, Pin<Box<dyn Future<Output = ()> + Send>>),
+    App(usize, Rc<TaskSt>, Rc<Cell<i128>>, Pin<Box<dyn Future<Output = ()>>>),
+}
+thread_local! {
+    static NEWQ: RefCell<Vec<NewTask>> = RefCell::new(Vec::new());
+}
+
+// ------------------------------------------------------------------------------------------
+// wakers
+struct TaskWaker {
+    id: usize,
+    runnable: AtomicBool,
+    sh: Arc<Sh>,
+}
+impl Wake for TaskWaker {
+    fn wake(self: Arc<Self>) {
+        self.wake_by_ref()
+    }
+    fn wake_by_ref(self: &Arc<Self>) {
+        let was = self.runnable.swap(true, Ordering::Relaxed);
+        let by = self.sh.cur.load(Ordering::Relaxed) as i128;
+        self.sh.log(vec![21, self.sh.t(), self.id as i128, by, was as i128]);
+    }
+}
+
+// ------------------------------------------------------------------------------------------
+// Runtime, timers, sockets
+#[derive(Debug)]
+struct SimRuntime {
+    ep: usize,
+    sh: Arc<Sh>,
+}
+impl std::fmt::Debug for Sh {
+    fn fmt(&self, f: &mut std::fmt::Formatter<'_>) -> std::fmt::Result {
+        f.write_str("Sh")
+    }
+}
+impl Runtime for SimRuntime {
+    fn new_timer(&self, i: Instant) -> Pin<Box<dyn AsyncTimer>> {
+        Box::pin(SimTimer::new(self.sh.clone(), self.sh.us_of(i)))
+    }
+    fn spawn(&self, future: Pin<Box<dyn Future<Output = ()> + Send>>) {
+        NEWQ.with(|q| q.borrow_mut().push(NewTask::Quinn(self.ep, future)));
+    }
+    fn wrap_udp_socket(&self, _t: std::net::UdpSocket) -> io::Result<Box<dyn AsyncUdpSocket>> {
+        Err(io::Error::other("unused"))
+    }
+    fn now(&self) -> Instant {
+        self.sh.base + Duration::from_micros(self.sh.now.load(Ordering::Relaxed))
+    }
+}
+
+#[derive(Debug)]
+struct SimTimer {
+    sh: Arc<Sh>,
+    id: u64,
+    deadline: u64,
+}
+impl SimTimer {
+    fn new(sh: Arc<Sh>, deadline: u64) -> Self {
+        let id = {
+            let mut g = sh.inner.lock().unwrap();
+            g.next_timer += 1;
+            g.next_timer
+        };
+        SimTimer { sh, id, deadline }
+    }
+    fn poll_at(&mut self, cx: &mut Context<'_>) -> Poll<()> {
+        let now = self.sh.now.load(Ordering::Relaxed);
+        let mut g = self.sh.inner.lock().unwrap();
+        if now >= self.deadline {
+            g.timers.remove(&self.id);
+            Poll::Ready(())
+        } else {
+            g.timers.insert(self.id, (self.deadline, Some(cx.waker().clone())));
+            Poll::Pending
+        }
+    }
+}
+impl AsyncTimer for SimTimer {
+    fn reset(mut self: Pin<&mut Self>, i: Instant) {
+        self.deadline = self.sh.us_of(i);
+        let (id, d) = (self.id, self.deadline);
+        let mut g = self.sh.inner.lock().unwrap();
+        if let Some(e) = g.timers.get_mut(&id) {
+            e.0 = d;
+        }
+    }
+    fn poll(mut self: Pin<&mut Self>, cx: &mut Context<'_>) -> Poll<()> {
+        self.poll_at(cx)
+    }
+}
+impl Drop for SimTimer {
+    fn drop(&mut self) {
+        if let Ok(mut g) = self.sh.inner.lock() {
+            g.timers.remove(&self.id);
+        }
+    }
+}
+/// sleep of an application task on the virtual clock (0 = yield once)
+struct Sleep {
+    t: Option<SimTimer>,
+    yielded: bool,
+}
+impl Future for Sleep {
+    type Output = ();
+    fn poll(mut self: Pin<&mut Self>, cx: &mut Context<'_>) -> Poll<()> {
+        match self.t.as_mut() {
+            Some(t) => t.poll_at(cx),
+            None => {
+                if self.yielded {
+                    Poll::Ready(())
+                } else {
+                    self.yielded = true;
+                    cx.waker().wake_by_ref();
+                    Poll::Pending
+                }
+            }
+        }
+    }
+}
+
+#[derive(Debug)]
+struct SimSocket {
+    ep: usize,
+    sh: Arc<Sh>,
+}
+#[derive(Debug)]
+struct SimSender {
+    ep: usize,
+    sh: Arc<Sh>,
+    blocked_once: bool,
+}
+impl AsyncUdpSocket for SimSocket {
+    fn create_sender(&self) -> Pin<Box<dyn UdpSender>> {
+        Box::pin(SimSender { ep: self.ep, sh: self.sh.clone(), blocked_once: false })
+    }
+    fn poll_recv(
+        &mut self,
+        cx: &mut Context<'_>,
+        bufs: &mut [IoSliceMut<'_>],
+        meta: &mut [quinn::udp::RecvMeta],
+    ) -> Poll<io::Result<usize>> {
+        let mut g = self.sh.inner.lock().unwrap();
+        let s = &mut g.socks[self.ep];
+        if s.inbox.is_empty() {
+            s.rwaker = Some(cx.waker().clone());
+            return Poll::Pending;
+        }
+        let mut n = 0;
+        while n < bufs.len() && n < meta.len() {
+            let Some((src, data)) = s.inbox.pop_front() else { break };
+            let l = data.len().min(bufs[n].len());
+            bufs[n][..l].copy_from_slice(&data[..l]);
+            let mut m = quinn::udp::RecvMeta::default();
+            m.addr = src;
+            m.len = l;
+            m.stride = l;
+            m.ecn = None;
+            m.dst_ip = None;
+            meta[n] = m;
+            n += 1;
+        }
+        Poll::Ready(Ok(n))
+    }
+    fn local_addr(&self) -> io::Result<SocketAddr> {
+        Ok(self.sh.inner.lock().unwrap().socks[self.ep].addr)
+    }
+}
+impl UdpSender for SimSender {
+    fn poll_send(
+        mut self: Pin<&mut Self>,
+        tr: &quinn::udp::Transmit<'_>,
+        cx: &mut Context<'_>,
+    ) -> Poll<io::Result<()>> {
+        let sh = self.sh.clone();
+        let now = sh.now.load(Ordering::Relaxed);
+        let mut g = sh.inner.lock().unwrap();
+        let (sb, loss, dup) = (g.send_block, g.loss, g.dup);
+        if sb > 0 && !self.blocked_once && g.net_rng.chance(sb) {
+            // back-pressure: Pending now, writable again 50 us later
+            self.blocked_once = true;
+            g.next_timer += 1;
+            let id = g.next_timer;
+            g.timers.insert(id, (now + 50, Some(cx.waker().clone())));
+            drop(g);
+            sh.log(vec![31, now as i128, 8, self.ep as i128, -1, tr.contents.len() as i128]);
+            return Poll::Pending;
+        }
+        self.blocked_once = false;
+        let ep = self.ep;
+        g.socks[ep].sends += 1;
+        if g.ioerr_after >= 0 && ep == 0 && g.socks[ep].sends as i128 > g.ioerr_after {
+            drop(g);
+            sh.log(vec![31, now as i128, 9, ep as i128, -1, tr.contents.len() as i128]);
+            return Poll::Ready(Err(io::Error::new(io::ErrorKind::PermissionDenied, "injected")));
+        }
+        let src = g.socks[ep].addr;
+        let dst = g.socks.iter().position(|s| s.addr == tr.destination);
+        let seg = tr.segment_size.unwrap_or(tr.contents.len()).max(1);
+        let mut recs = Vec::new();
+        for chunk in tr.contents.chunks(seg) {
+            let Some(dst) = dst else {
+                recs.push(vec![31, now as i128, 4, ep as i128, -1, chunk.len() as i128]);
+                continue;
+            };
+            if g.net_rng.chance(loss) {
+                recs.push(vec![31, now as i128, 1, ep as i128, dst as i128, chunk.len() as i128]);
+                continue;
+            }
+            let copies = if g.net_rng.chance(dup) { 2 } else { 1 };
+            for c in 0..copies {
+                let span = g.dmax.saturating_sub(g.dmin);
+                let d = g.dmin + if span > 0 { g.net_rng.below(span + 1) } else { 0 };
+                g.seq += 1;
+                let seq = g.seq;
+                g.net.push(Pkt { at: now + d, seq, dst, src, data: chunk.to_vec() });
+                recs.push(vec![31, now as i128, if c == 0 { 0 } else { 2 }, ep as i128, dst as i128, chunk.len() as i128]);
+            }
+        }
+        drop(g);
+        for r in recs {
+            sh.log(r);
+        }
+        Poll::Ready(Ok(()))
+    }
+}
+
+// ------------------------------------------------------------------------------------------
+// application side: task context and the cancellable-operation wrapper
+pub struct TaskSt {
+    cur_op: Cell<(i128, i128, i128)>, // (opid, kind, sid) the task is pending on; opid -1 = none
+    forced: Cell<bool>,
+    progressed: Cell<bool>,
+    last_op: Cell<i128>,
+    rng: RefCell<Rng>,
+    cancel_pm: i128,
+}
+#[derive(Clone)]
+struct Ctx {
+    sh: Arc<Sh>,
+    task: Rc<Cell<i128>>,
+    ep: usize,
+    st: Rc<TaskSt>,
+    w: Rc<World>,
+}
+impl Ctx {
+    fn tid(&self) -> i128 {
+        self.task.get()
+    }
+    fn fut_new(&self, opid: i128, kind: i128, sid: i128) {
+        self.sh.log(vec![22, self.sh.t(), self.tid(), self.ep as i128, opid, kind, sid]);
+    }
+    fn op_done(&self, opid: i128, kind: i128, sid: i128) {
+        self.st.cur_op.set((-1, 0, -1));
+        self.st.last_op.set(opid);
+        self.sh.log(vec![23, self.sh.t(), self.tid(), self.ep as i128, opid, kind, sid, self.st.forced.get() as i128]);
+    }
+    /// result of the last completed operation: [32,t,task,opid,result,a,b,content_ok]
+    fn res(&self, result: i128, a: i128, b: i128, ok: bool) {
+        self.sh.log(vec![32, self.sh.t(), self.tid(), self.st.last_op.get(), result, a, b, ok as i128]);
+    }
+    fn fut_dropped(&self, opid: i128, kind: i128, sid: i128) -> u64 {
+        self.st.cur_op.set((-1, 0, -1));
+        let d = [0u64, 0, 300, 5_000, 40_000][self.st.rng.borrow_mut().below(5) as usize];
+        self.sh.log(vec![24, self.sh.t(), self.tid(), self.ep as i128, opid, kind, sid, d as i128]);
+        d
+    }
+    /// handle accounting: what 1 Connection/Connecting 2 SendStream 3 RecvStream 4 Endpoint
+    fn h_new(&self, what: i128, sid: i128) {
+        self.sh.log(vec![25, self.sh.t(), self.tid(), self.ep as i128, what, sid, 1]);
+    }
+    fn h_drop(&self, what: i128, sid: i128) {
+        self.sh.log(vec![25, self.sh.t(), self.tid(), self.ep as i128, what, sid, 0]);
+    }
+    fn sleep(&self, us: u64) -> Sleep {
+        if us == 0 {
+            Sleep { t: None, yielded: false }
+        } else {
+            let d = self.sh.now.load(Ordering::Relaxed) + us;
+            Sleep { t: Some(SimTimer::new(self.sh.clone(), d)), yielded: false }
+        }
+    }
+    fn spawn<F: Future<Output = ()> + 'static>(&self, mk: impl FnOnce(Ctx) -> F) {
+        let st = Rc::new(TaskSt {
+            cur_op: Cell::new((-1, 0, -1)),
+            forced: Cell::new(false),
+            progressed: Cell::new(false),
+            last_op: Cell::new(-1),
+            rng: RefCell::new(Rng::new(self.st.rng.borrow_mut().next())),
+            cancel_pm: self.st.cancel_pm,
+        });
+        let cx = Ctx { sh: self.sh.clone(), task: Rc::new(Cell::new(-1)), ep: self.ep, st: st.clone(), w: self.w.clone() };
+        let cell = cx.task.clone();
+        let fut = mk(cx);
+        NEWQ.with(|q| q.borrow_mut().push(NewTask::App(self.ep, st, cell, Box::pin(fut))));
+    }
+}
+struct PollOrCancel<'a, F: Future> {
+    fut: Pin<&'a mut F>,
+    cx: &'a Ctx,
+    cancel: bool,
+    op: (i128, i128, i128),
+    born_forced: bool,
+}
+impl<F: Future> Future for PollOrCancel<'_, F> {
+    type Output = Option<F::Output>;
+    fn poll(mut self: Pin<&mut Self>, c: &mut Context<'_>) -> Poll<Self::Output> {
+        // quiescence check: replace the old future by a FRESH one of the same operation (several
+        // quinn futures re-check their condition only when their Notified fires)
+        if self.cancel && self.cx.st.forced.get() && !self.born_forced {
+            return Poll::Ready(None);
+        }
+        match self.fut.as_mut().poll(c) {
+            Poll::Ready(v) => {
+                self.cx.st.progressed.set(true);
+                Poll::Ready(Some(v))
+            }
+            Poll::Pending => {
+                let st = &self.cx.st;
+                if self.cancel && !st.forced.get() && st.cancel_pm > 0 && st.rng.borrow_mut().chance(st.cancel_pm) {
+                    return Poll::Ready(None);
+                }
+                st.cur_op.set(self.op);
+                Poll::Pending
+            }
+        }
+    }
+}
+
+macro_rules! op {
+    ($cx:expr, $kind:expr, $sid:expr, $cancel:expr, $mk:expr) => {{
+        let opid = $cx.sh.opid.fetch_add(1, Ordering::Relaxed) as i128;
+        loop {
+            $cx.fut_new(opid, $kind, $sid);
+            let r = {
+                let fut = $mk;
+                let mut fut = std::pin::pin!(fut);
+                PollOrCancel { fut: fut.as_mut(), cx: &$cx, cancel: $cancel, op: (opid, $kind, $sid), born_forced: $cx.st.forced.get() }.await
+            };
+            match r {
+                Some(v) => {
+                    $cx.op_done(opid, $kind, $sid);
+                    break v;
+                }
+                None if $cx.st.forced.get() => {
+                    $cx.st.cur_op.set((-1, 0, -1));
+                    $cx.sh.log(vec![24, $cx.sh.t(), $cx.tid(), $cx.ep as i128, opid, $kind, $sid, -1]);
+                }
+                None => {
+                    let d = $cx.fut_dropped(opid, $kind, $sid);
+                    $cx.st.cur_op.set((-2, O_SLEEP, -1));
+                    $cx.sleep(d).await;
+                    $cx.st.cur_op.set((-1, 0, -1));
+                }
+            }
+        }
+    }};
+}
+
+// harness-internal synchronisation (not under test)
+struct Slot<T> {
+    v: RefCell<Option<T>>,
+    failed: Cell<bool>,
+    wakers: RefCell<Vec<Waker>>,
+}
+impl<T: Clone> Slot<T> {
+    fn new() -> Self {
+        Slot { v: RefCell::new(None), failed: Cell::new(false), wakers: RefCell::new(Vec::new()) }
+    }
+    fn set(&self, v: Option<T>) {
+        if v.is_none() {
+            self.failed.set(true);
+        }
+        *self.v.borrow_mut() = v;
+        for w in self.wakers.borrow_mut().drain(..) {
+            w.wake();
+        }
+    }
+    fn clear(&self) {
+        *self.v.borrow_mut() = None;
+        self.failed.set(true);
+    }
+    async fn get(&self, cx: &Ctx) -> Option<T> {
+        cx.st.cur_op.set((-2, O_INTERNAL, -1));
+        let r = std::future::poll_fn(|c| {
+            if let Some(v) = self.v.borrow().as_ref() {
+                return Poll::Ready(Some(v.clone()));
+            }
+            if self.failed.get() {
+                return Poll::Ready(None);
+            }
+            self.wakers.borrow_mut().push(c.waker().clone());
+            Poll::Pending
+        })
+        .await;
+        cx.st.cur_op.set((-1, 0, -1));
+        r
+    }
+}
+struct Counter {
+    n: Cell<i64>,
+    wakers: RefCell<Vec<Waker>>,
+}
+impl Counter {
+    fn done(&self) {
+        self.n.set(self.n.get() - 1);
+        if self.n.get() <= 0 {
+            for w in self.wakers.borrow_mut().drain(..) {
+                w.wake();
+            }
+        }
+    }
+    async fn wait(&self, cx: &Ctx, deadline: Option<u64>) {
+        cx.st.cur_op.set((-2, O_INTERNAL, -1));
+        let mut timer = deadline.map(|d| SimTimer::new(cx.sh.clone(), d));
+        std::future::poll_fn(|c| {
+            if self.n.get() <= 0 {
+                return Poll::Ready(());
+            }
+            if let Some(t) = timer.as_mut() {
+                if t.poll_at(c).is_ready() {
+                    return Poll::Ready(());
+                }
+            }
+            self.wakers.borrow_mut().push(c.waker().clone());
+            Poll::Pending
+        })
+        .await;
+        cx.st.cur_op.set((-1, 0, -1));
+    }
+}
+
+struct World {
+    p: P,
+    conn: [Slot<Connection>; 2],
+    jobs: Counter,
+    echoes: Counter,
+    saddr: SocketAddr,
+}
+
+pub fn pattern(sid: u64, off: u64, salt: u64) -> u8 {
+    let x = sid.wrapping_mul(0x9E3779B97F4A7C15) ^ off.wrapping_mul(0xC2B2AE3D27D4EB4F) ^ salt.wrapping_mul(0x165667B19E3779F9);
+    ((x >> 29) ^ (x >> 7) ^ x) as u8
+}
+fn sid_of(s: quinn::StreamId) -> i128 {
+    u64::from(s) as i128
+}
+fn conn_err(e: &ConnectionError) -> i128 {
+    match e {
+        ConnectionError::VersionMismatch => 1,
+        ConnectionError::TransportError(_) => 2,
+        ConnectionError::ConnectionClosed(_) => 3,
+        ConnectionError::ApplicationClosed(_) => 4,
+        ConnectionError::Reset => 5,
+        ConnectionError::TimedOut => 6,
+        ConnectionError::LocallyClosed => 7,
+        ConnectionError::CidsExhausted => 8,
+    }
+}
+
+// --- jobs -------------------------------------------------------------------------------------
+/// write `total` pattern bytes; result records: write [result 0 ok, a = offset, b = n] / errors
+/// 10+conn error, 20 stopped, 21 closed stream, 22 0-RTT rejected
+async fn write_job(cx: &Ctx, send: &mut SendStream, sid: i128, total: usize, salt: u64, reset_at: i128) -> bool {
+    let p = &cx.w.p;
+    let chunk = (p.get(k::WRITE_CHUNK, 1000) as usize).max(1);
+    let mode = p.get(k::WRITE_MODE, 0);
+    let data: Vec<u8> = (0..total).map(|o| pattern(sid as u64, o as u64, salt)).collect();
+    let werr = |e: &WriteError| match e {
+        WriteError::ConnectionLost(c) => 10 + conn_err(c),
+        WriteError::Stopped(_) => 20,
+        WriteError::ClosedStream => 21,
+        WriteError::ZeroRttRejected => 22,
+    };
+    let mut off = 0usize;
+    while off < total {
+        if reset_at >= 0 && off as i128 >= reset_at {
+            return false;
+        }
+        let end = (off + chunk).min(total);
+        match mode {
+            1 => {
+                let r = op!(cx, O_WRITE_ALL, sid, false, send.write_all(&data[off..end]));
+                match r {
+                    Ok(()) => {
+                        cx.res(0, off as i128, (end - off) as i128, true);
+                        off = end;
+                    }
+                    Err(e) => {
+                        cx.res(werr(&e), off as i128, 0, true);
+                        return false;
+                    }
+                }
+            }
+            2 => {
+                let mut bufs = [Bytes::copy_from_slice(&data[off..end])];
+                let r = op!(cx, O_WRITE, sid, true, send.write_chunks(&mut bufs));
+                match r {
+                    Ok(w) => {
+                        cx.res(0, off as i128, w.bytes as i128, true);
+                        off += w.bytes;
+                    }
+                    Err(e) => {
+                        cx.res(werr(&e), off as i128, 0, true);
+                        return false;
+                    }
+                }
+            }
+            _ => {
+                let r = op!(cx, O_WRITE, sid, true, send.write(&data[off..end]));
+                match r {
+                    Ok(n) => {
+                        cx.res(0, off as i128, n as i128, true);
+                        off += n;
+                    }
+                    Err(e) => {
+                        cx.res(werr(&e), off as i128, 0, true);
+                        return false;
+                    }
+                }
+            }
+        }
+    }
+    true
+}
+
+/// read until the end; records: read [0, offset, n, content_ok], end [1, total, 0], errors 10+conn,
+/// 20 reset, 21 closed stream, 22 illegal ordered read, 23 0-RTT, 24 too long
+async fn read_job(cx: &Ctx, recv: &mut RecvStream, sid: i128, salt: u64, stop_at: i128, delay: u64) -> i128 {
+    let p = &cx.w.p;
+    let mode = p.get(k::READ_MODE, 0);
+    let max = (p.get(k::READ_MAX, 4096) as usize).max(1);
+    let rerr = |e: &ReadError| match e {
+        ReadError::ConnectionLost(c) => 10 + conn_err(c),
+        ReadError::Reset(_) => 20,
+        ReadError::ClosedStream => 21,
+        ReadError::IllegalOrderedRead => 22,
+        ReadError::ZeroRttRejected => 23,
+    };
+    let check = |off: usize, b: &[u8]| b.iter().enumerate().all(|(i, x)| *x == pattern(sid as u64, (off + i) as u64, salt));
+    let mut off = 0usize;
+    if mode == 2 {
+        let r = op!(cx, O_READ_TO_END, sid, false, recv.read_to_end(1 << 24));
+        return match r {
+            Ok(v) => {
+                cx.res(0, 0, v.len() as i128, check(0, &v));
+                cx.res(1, v.len() as i128, 0, true);
+                v.len() as i128
+            }
+            Err(quinn::ReadToEndError::Read(e)) => {
+                cx.res(rerr(&e), 0, 0, true);
+                -1
+            }
+            Err(quinn::ReadToEndError::TooLong) => {
+                cx.res(24, 0, 0, true);
+                -1
+            }
+        };
+    }
+    let mut buf = vec![0u8; max];
+    loop {
+        if stop_at >= 0 && off as i128 >= stop_at && p.get(k::STOP_BY_DROP, 0) == 1 {
+            return off as i128; // the caller drops the handle: implicit stop(0)
+        }
+        if stop_at >= 0 && off as i128 >= stop_at {
+            let r = recv.stop(VarInt::from_u32(7));
+            cx.sh.log(vec![35, cx.sh.t(), cx.tid(), sid, r.is_ok() as i128]);
+            return off as i128;
+        }
+        if delay > 0 {
+            cx.st.cur_op.set((-2, O_SLEEP, -1));
+            cx.sleep(delay).await;
+            cx.st.cur_op.set((-1, 0, -1));
+        }
+        let got: Result<Option<Vec<u8>>, ReadError> = match mode {
+            1 => op!(cx, O_READ, sid, true, recv.read_chunk(max, true)).map(|o| o.map(|c| c.bytes.to_vec())),
+            3 => {
+                let mut bufs = [Bytes::new(), Bytes::new(), Bytes::new()];
+                let r = op!(cx, O_READ, sid, true, recv.read_chunks(&mut bufs));
+                r.map(|o| o.map(|n| bufs[..n].iter().flat_map(|b| b.iter().copied()).collect()))
+            }
+            _ => {
+                let r = op!(cx, O_READ, sid, true, recv.read(&mut buf));
+                r.map(|o| o.map(|n| buf[..n].to_vec()))
+            }
+        };
+        match got {
+            Ok(Some(b)) => {
+                cx.res(0, off as i128, b.len() as i128, check(off, &b));
+                off += b.len();
+            }
+            Ok(None) => {
+                cx.res(1, off as i128, 0, true);
+                return off as i128;
+            }
+            Err(e) => {
+                cx.res(rerr(&e), off as i128, 0, true);
+                return -1;
+            }
+        }
+    }
+}
+
+async fn client_uni(cx: Ctx, i: usize) {
+    let p = &cx.w.p;
+    let Some(conn) = cx.w.conn[0].get(&cx).await else {
+        cx.w.jobs.done();
+        return;
+    };
+    cx.h_new(1, -1);
+    let r = op!(cx, O_OPEN_UNI, -1, true, conn.open_uni());
+    match r {
+        Ok(mut send) => {
+            let sid = sid_of(send.id());
+            cx.h_new(2, sid);
+            cx.res(0, sid, 0, true);
+            let total = p.get(k::STREAM_BYTES, 5000) as usize;
+            let reset_at = if i == 0 { p.get(k::RESET_AT, -1) } else { -1 };
+            let ok = write_job(&cx, &mut send, sid, total, 1, reset_at).await;
+            let sw = p.get(k::STOPPED_WAIT, 1);
+            if ok && p.get(k::IMPLICIT_FINISH, 0) == 1 {
+                // the stopped() future is 'static: take it, then drop the handle WITHOUT finish()
+                let mut st = Box::pin(send.stopped());
+                cx.h_new(1, -1); // the future holds a ConnectionRef
+                cx.sh.log(vec![36, cx.sh.t(), cx.tid(), sid, 1, total as i128]);
+                cx.h_drop(2, sid);
+                drop(send);
+                let r = op!(cx, O_STOPPED_DETACHED, sid, false, &mut st);
+                match r {
+                    Ok(None) => cx.res(0, 0, 0, true),
+                    Ok(Some(c)) => cx.res(1, c.into_inner() as i128, 0, true),
+                    Err(quinn::StoppedError::ConnectionLost(e)) => cx.res(10 + conn_err(&e), 0, 0, true),
+                    Err(quinn::StoppedError::ZeroRttRejected) => cx.res(23, 0, 0, true),
+                }
+                cx.h_drop(1, -1);
+                drop(st);
+                cx.w.jobs.done();
+                cx.h_drop(1, -1);
+                drop(conn);
+                return;
+            }
+            if ok {
+                let r = send.finish();
+                cx.sh.log(vec![36, cx.sh.t(), cx.tid(), sid, r.is_ok() as i128, total as i128]);
+            } else if reset_at >= 0 || sw == 2 {
+                let r = send.reset(VarInt::from_u32(9));
+                cx.sh.log(vec![37, cx.sh.t(), cx.tid(), sid, r.is_ok() as i128]);
+            }
+            if sw == 2 && ok {
+                // known class: reset() a finished-but-unacknowledged stream, then wait for stopped()
+                let r = send.reset(VarInt::from_u32(9));
+                cx.sh.log(vec![37, cx.sh.t(), cx.tid(), sid, r.is_ok() as i128]);
+            }
+            if sw > 0 {
+                let r = op!(cx, O_STOPPED, sid, true, send.stopped());
+                match r {
+                    Ok(None) => cx.res(0, 0, 0, true),
+                    Ok(Some(c)) => cx.res(1, c.into_inner() as i128, 0, true),
+                    Err(quinn::StoppedError::ConnectionLost(e)) => cx.res(10 + conn_err(&e), 0, 0, true),
+                    Err(quinn::StoppedError::ZeroRttRejected) => cx.res(23, 0, 0, true),
+                }
+            }
+            cx.h_drop(2, sid);
+            drop(send);
+        }
+        Err(e) => cx.res(10 + conn_err(&e), -1, 0, true),
+    }
+    cx.w.jobs.done();
+    cx.h_drop(1, -1);
+    drop(conn);
+}
+
+async fn client_bi(cx: Ctx, _i: usize) {
+    let p = &cx.w.p;
+    let Some(conn) = cx.w.conn[0].get(&cx).await else {
+        cx.w.jobs.done();
+        return;
+    };
+    cx.h_new(1, -1);
+    let r = op!(cx, O_OPEN_BI, -1, true, conn.open_bi());
+    match r {
+        Ok((mut send, mut recv)) => {
+            let sid = sid_of(send.id());
+            cx.h_new(2, sid);
+            cx.h_new(3, sid);
+            cx.res(0, sid, 0, true);
+            let total = p.get(k::STREAM_BYTES, 5000) as usize;
+            if write_job(&cx, &mut send, sid, total, 1, -1).await {
+                let r = send.finish();
+                cx.sh.log(vec![36, cx.sh.t(), cx.tid(), sid, r.is_ok() as i128, total as i128]);
+            }
+            cx.h_drop(2, sid);
+            drop(send);
+            read_job(&cx, &mut recv, sid, 2, -1, 0).await;
+            cx.h_drop(3, sid);
+            drop(recv);
+        }
+        Err(e) => cx.res(10 + conn_err(&e), -1, 0, true),
+    }
+    cx.w.jobs.done();
+    cx.h_drop(1, -1);
+    drop(conn);
+}
+
+async fn dgram_sender(cx: Ctx) {
+    let p = &cx.w.p;
+    let Some(conn) = cx.w.conn[0].get(&cx).await else {
+        cx.w.jobs.done();
+        return;
+    };
+    cx.h_new(1, -1);
+    let n = p.get(k::NDGRAM, 0);
+    let size = (p.get(k::DGRAM_SIZE, 100) as usize).max(8);
+    for i in 0..n {
+        let mut d = vec![0u8; size];
+        d[..8].copy_from_slice(&(i as u64).to_be_bytes());
+        for (j, b) in d.iter_mut().enumerate().skip(8) {
+            *b = pattern(1 << 40, (i as u64) * 65536 + j as u64, 3);
+        }
+        let r = op!(cx, O_SEND_DGRAM, i, true, conn.send_datagram_wait(Bytes::from(d.clone())));
+        match r {
+            Ok(()) => cx.res(0, i, size as i128, true),
+            Err(quinn::SendDatagramError::ConnectionLost(e)) => {
+                cx.res(10 + conn_err(&e), i, 0, true);
+                break;
+            }
+            Err(_) => {
+                cx.res(30, i, 0, true);
+                break;
+            }
+        }
+    }
+    if p.get(k::LOSS, 0) == 0 && p.get(k::DGRAM_SEND_BUF, 0) == 0 && p.get(k::DELAY_MAX, 0) <= p.get(k::DELAY_MIN, 5000) {
+        // loss-free FIFO link (no spurious loss detection either): every datagram comes back; wait for the echoes (or the close)
+        cx.w.echoes.n.set(cx.w.echoes.n.get() + n as i64);
+        cx.w.echoes.wait(&cx, None).await;
+    }
+    cx.w.jobs.done();
+    cx.h_drop(1, -1);
+    drop(conn);
+}
+
+/// reads datagrams until the connection closes; the server echoes them back
+async fn dgram_reader(cx: Ctx, side: usize, echo: bool) {
+    let Some(conn) = cx.w.conn[side].get(&cx).await else { return };
+    cx.h_new(1, -1);
+    loop {
+        let r = op!(cx, O_READ_DGRAM, -1, true, conn.read_datagram());
+        match r {
+            Ok(b) => {
+                let id = if b.len() >= 8 { u64::from_be_bytes(b[..8].try_into().unwrap()) } else { u64::MAX };
+                let ok = b.iter().enumerate().skip(8).all(|(j, x)| *x == pattern(1 << 40, id.wrapping_mul(65536) + j as u64, 3));
+                cx.res(0, id as i128, b.len() as i128, ok);
+                if !echo {
+                    cx.w.echoes.done();
+                }
+                if echo {
+                    let r = conn.send_datagram(b);
+                    cx.sh.log(vec![38, cx.sh.t(), cx.tid(), id as i128, r.is_ok() as i128]);
+                }
+            }
+            Err(e) => {
+                cx.res(10 + conn_err(&e), -1, 0, true);
+                if !echo {
+                    cx.w.echoes.n.set(i64::MIN / 2);
+                    cx.w.echoes.done();
+                }
+                break;
+            }
+        }
+    }
+    cx.h_drop(1, -1);
+    drop(conn);
+}
+
+/// tasks that stay blocked until the connection closes (bit of HANG_OPS)
+async fn hang_task(cx: Ctx, bit: i128) {
+    let Some(conn) = cx.w.conn[0].get(&cx).await else { return };
+    cx.h_new(1, -1);
+    match bit {
+        1 => {
+            let r = op!(cx, O_ACCEPT_BI, -1, true, conn.accept_bi());
+            match r {
+                Ok(_) => cx.res(0, 0, 0, false),
+                Err(e) => cx.res(10 + conn_err(&e), -1, 0, true),
+            }
+        }
+        2 => {
+            let r = op!(cx, O_ACCEPT_UNI, -1, true, conn.accept_uni());
+            match r {
+                Ok(_) => cx.res(0, 0, 0, false),
+                Err(e) => cx.res(10 + conn_err(&e), -1, 0, true),
+            }
+        }
+        4 => {
+            let e = op!(cx, O_CLOSED, -1, true, conn.closed());
+            cx.res(10 + conn_err(&e), -1, 0, true);
+        }
+        8 => {
+            // a bidirectional stream the server never answers on: read blocks until close
+            let r = op!(cx, O_OPEN_BI, -1, true, conn.open_bi());
+            if let Ok((send, mut recv)) = r {
+                let sid = sid_of(send.id());
+                cx.h_new(2, sid);
+                cx.h_new(3, sid);
+                cx.res(0, sid, 1, true);
+                let mut buf = [0u8; 16];
+                let r = op!(cx, O_READ, sid, true, recv.read(&mut buf));
+                match r {
+                    Ok(_) => cx.res(0, 0, 0, false),
+                    Err(ReadError::ConnectionLost(e)) => cx.res(10 + conn_err(&e), 0, 0, true),
+                    Err(_) => cx.res(21, 0, 0, true),
+                }
+                cx.h_drop(2, sid);
+                drop(send);
+                cx.h_drop(3, sid);
+                drop(recv);
+            } else if let Err(e) = r {
+                cx.res(10 + conn_err(&e), -1, 0, true);
+            }
+        }
+        16 => {
+            let r = op!(cx, O_HS_CONFIRMED, -1, true, conn.handshake_confirmed());
+            match r {
+                Ok(()) => cx.res(0, 0, 0, true),
+                Err(e) => cx.res(10 + conn_err(&e), -1, 0, true),
+            }
+            let e = op!(cx, O_CLOSED, -1, true, conn.closed());
+            cx.res(10 + conn_err(&e), -1, 0, true);
+        }
+        _ => {}
+    }
+    cx.h_drop(1, -1);
+    drop(conn);
+}
+
+fn ep_state(cx: &Ctx, ep: &Endpoint) {
+    let mut r = vec![28, cx.sh.t(), cx.ep as i128];
+    r.extend(ep.verif_snapshot());
+    cx.sh.log(r);
+}
+
+async fn client_main(cx: Ctx, ep: Endpoint) {
+    let p = &cx.w.p;
+    cx.h_new(4, -1);
+    let connecting = ep.connect(cx.w.saddr, "localhost");
+    let mut connecting = match connecting {
+        Ok(c) => c,
+        Err(_) => {
+            cx.w.conn[0].set(None);
+            cx.h_drop(4, -1);
+            return;
+        }
+    };
+    cx.h_new(1, -1);
+    PROBES.with(|q| q.borrow_mut().push((0, connecting.verif_probe().unwrap())));
+    let r = op!(cx, O_CONNECT, -1, false, &mut connecting);
+    drop(connecting);
+    let mut conn = None;
+    match r {
+        Ok(c) => {
+            cx.res(0, 0, 0, true);
+            cx.w.conn[0].set(Some(c.clone()));
+            cx.h_new(1, -1); // the clone kept in the slot
+            conn = Some(c);
+        }
+        Err(e) => {
+            cx.res(10 + conn_err(&e), 0, 0, true);
+            cx.h_drop(1, -1);
+            cx.w.conn[0].set(None);
+        }
+    }
+    let close_at = p.get(k::CLOSE_AT_US, 0);
+    cx.w.jobs.wait(&cx, if close_at > 0 { Some(close_at as u64) } else { None }).await;
+    // the slot's clone goes away first: from now on late job tasks find no connection
+    if conn.is_some() {
+        cx.w.conn[0].clear();
+        cx.h_drop(1, -1);
+    }
+    let mode = p.get(k::END_MODE, 0);
+    if let Some(c) = conn {
+        match mode {
+            0 => {
+                cx.sh.log(vec![39, cx.sh.t(), cx.tid(), 0, 0]);
+                c.close(VarInt::from_u32(0), b"done");
+                cx.h_drop(1, -1);
+                drop(c);
+            }
+            1 => {
+                cx.sh.log(vec![39, cx.sh.t(), cx.tid(), 0, 1]);
+                cx.h_drop(1, -1);
+                drop(c);
+            }
+            4 => {
+                cx.sh.log(vec![39, cx.sh.t(), cx.tid(), 0, 4]);
+                ep.close(VarInt::from_u32(4), b"ep");
+                let e = op!(cx, O_CLOSED, -1, true, c.closed());
+                cx.res(10 + conn_err(&e), -1, 0, true);
+                cx.h_drop(1, -1);
+                drop(c);
+            }
+            _ => {
+                let e = op!(cx, O_CLOSED, -1, true, c.closed());
+                cx.res(10 + conn_err(&e), -1, 0, true);
+                cx.h_drop(1, -1);
+                drop(c);
+            }
+        }
+    }
+    op!(cx, O_WAIT_IDLE, -1, true, ep.wait_idle());
+    cx.res(0, 0, 0, true);
+    ep_state(&cx, &ep);
+    cx.h_drop(4, -1);
+    drop(ep);
+}
+
+async fn server_accept(cx: Ctx, ep: Endpoint) {
+    cx.h_new(4, -1);
+    let mut first = true;
+    loop {
+        let inc = op!(cx, O_EP_ACCEPT, -1, true, ep.accept());
+        let Some(inc) = inc else {
+            cx.res(1, 0, 0, true);
+            break;
+        };
+        cx.res(0, 0, 0, true);
+        match inc.accept() {
+            Ok(mut connecting) => {
+                cx.h_new(1, -1);
+                if first {
+                    PROBES.with(|q| q.borrow_mut().push((1, connecting.verif_probe().unwrap())));
+                }
+                let r = op!(cx, O_CONNECT, -1, false, &mut connecting);
+                drop(connecting);
+                match r {
+                    Ok(c) => {
+                        cx.res(0, 0, 0, true);
+                        if first {
+                            cx.w.conn[1].set(Some(c));
+                        } else {
+                            cx.h_drop(1, -1);
+                        }
+                    }
+                    Err(e) => {
+                        cx.res(10 + conn_err(&e), 0, 0, true);
+                        cx.h_drop(1, -1);
+                        if first {
+                            cx.w.conn[1].set(None);
+                        }
+                    }
+                }
+                first = false;
+            }
+            Err(_) => {}
+        }
+    }
+    if first {
+        cx.w.conn[1].set(None);
+    }
+    cx.h_drop(4, -1);
+    drop(ep);
+}
+
+async fn server_main(cx: Ctx, ep: Endpoint) {
+    let p = &cx.w.p;
+    cx.h_new(4, -1);
+    let conn = cx.w.conn[1].get(&cx).await;
+    if let Some(c) = conn {
+        // `c` is a second clone of the slot's handle
+        cx.h_new(1, -1);
+        let mode = p.get(k::END_MODE, 0);
+        if mode == 2 || mode == 3 {
+            let at = p.get(k::CLOSE_AT_US, 0).max(1) as u64;
+            cx.st.cur_op.set((-2, O_SLEEP, -1));
+            let now = cx.sh.now.load(Ordering::Relaxed);
+            cx.sleep(at.saturating_sub(now).max(1)).await;
+            cx.st.cur_op.set((-1, 0, -1));
+            cx.sh.log(vec![39, cx.sh.t(), cx.tid(), 1, mode]);
+            if mode == 2 {
+                c.close(VarInt::from_u32(2), b"srv");
+            } else {
+                ep.close(VarInt::from_u32(3), b"srv-ep");
+            }
+        }
+        let e = op!(cx, O_CLOSED, -1, true, c.closed());
+        cx.res(10 + conn_err(&e), -1, 0, true);
+        cx.w.conn[1].clear();
+        cx.h_drop(1, -1); // the slot's clone
+        cx.h_drop(1, -1);
+        drop(c);
+    }
+    cx.sh.log(vec![39, cx.sh.t(), cx.tid(), 1, 5]);
+    ep.close(VarInt::from_u32(0), b"");
+    op!(cx, O_WAIT_IDLE, -1, true, ep.wait_idle());
+    cx.res(0, 0, 0, true);
+    ep_state(&cx, &ep);
+    cx.h_drop(4, -1);
+    drop(ep);
+}
+
+async fn server_acc_uni(cx: Ctx) {
+    let p = &cx.w.p;
+    let Some(conn) = cx.w.conn[1].get(&cx).await else { return };
+    cx.h_new(1, -1);
+    loop {
+        let r = op!(cx, O_ACCEPT_UNI, -1, true, conn.accept_uni());
+        match r {
+            Ok(recv) => {
+                let sid = sid_of(recv.id());
+                cx.res(0, sid, 0, true);
+                // handle accounting: the RecvStream is created here and moved to its reader task
+                cx.h_new(3, sid);
+                let stop_at = if sid == 2 { p.get(k::STOP_AT, -1) } else { -1 };
+                let delay = p.get(k::READ_DELAY_US, 0) as u64;
+                cx.spawn(move |c2| async move {
+                    let mut recv = recv;
+                    read_job(&c2, &mut recv, sid, 1, stop_at, delay).await;
+                    c2.h_drop(3, sid);
+                    drop(recv);
+                });
+            }
+            Err(e) => {
+                cx.res(10 + conn_err(&e), -1, 0, true);
+                break;
+            }
+        }
+    }
+    cx.h_drop(1, -1);
+    drop(conn);
+}
+
+async fn server_acc_bi(cx: Ctx) {
+    let p = &cx.w.p;
+    let Some(conn) = cx.w.conn[1].get(&cx).await else { return };
+    cx.h_new(1, -1);
+    loop {
+        let r = op!(cx, O_ACCEPT_BI, -1, true, conn.accept_bi());
+        match r {
+            Ok((send, recv)) => {
+                let sid = sid_of(recv.id());
+                cx.res(0, sid, 0, true);
+                cx.h_new(2, sid);
+                cx.h_new(3, sid);
+                let delay = p.get(k::READ_DELAY_US, 0) as u64;
+                let echo = p.get(k::ECHO_BYTES, 1000) as usize;
+                cx.spawn(move |c2| async move {
+                    let (mut send, mut recv) = (send, recv);
+                    let n = read_job(&c2, &mut recv, sid, 1, -1, delay).await;
+                    c2.h_drop(3, sid);
+                    drop(recv);
+                    if n >= 0 && write_job(&c2, &mut send, sid, echo, 2, -1).await {
+                        let r = send.finish();
+                        c2.sh.log(vec![36, c2.sh.t(), c2.tid(), sid, r.is_ok() as i128, echo as i128]);
+                    }
+                    c2.h_drop(2, sid);
+                    drop(send);
+                });
+            }
+            Err(e) => {
+                cx.res(10 + conn_err(&e), -1, 0, true);
+                break;
+            }
+        }
+    }
+    cx.h_drop(1, -1);
+    drop(conn);
+}
+
+// ------------------------------------------------------------------------------------------
+// configuration
+fn load_cert() -> (Vec<u8>, Vec<u8>) {
+    let dir = std::env::var("QVH_CERTS").unwrap_or_else(|_| {
+        let mut p = std::env::current_exe().unwrap();
+        for _ in 0..4 {
+            p.pop();
+        }
+        p.push("harness");
+        p.push("certs");
+        p.to_string_lossy().to_string()
+    });
+    (
+        std::fs::read(format!("{}/cert.der", dir)).expect("cert.der"),
+        std::fs::read(format!("{}/key.der", dir)).expect("key.der"),
+    )
+}
+struct SeqCid {
+    next: u64,
+    tag: u8,
+}
+impl quinn::ConnectionIdGenerator for SeqCid {
+    fn generate_cid(&mut self) -> quinn::ConnectionId {
+        self.next += 1;
+        let mut b = [0u8; 8];
+        b[0] = self.tag;
+        b[1..8].copy_from_slice(&self.next.to_be_bytes()[1..8]);
+        quinn::ConnectionId::new(&b)
+    }
+    fn cid_len(&self) -> usize {
+        8
+    }
+    fn cid_lifetime(&self) -> Option<Duration> {
+        None
+    }
+}
+struct RingHmac(ring::hmac::Key);
+impl quinn::crypto::HmacKey for RingHmac {
+    fn sign(&self, data: &[u8], out: &mut [u8]) {
+        out.copy_from_slice(ring::hmac::sign(&self.0, data).as_ref());
+    }
+    fn signature_len(&self) -> usize {
+        32
+    }
+    fn verify(&self, data: &[u8], signature: &[u8]) -> Result<(), quinn::crypto::CryptoError> {
+        ring::hmac::verify(&self.0, data, signature).map_err(|_| quinn::crypto::CryptoError)
+    }
+}
+fn ep_config(tag: u8, seed: u64) -> EndpointConfig {
+    let mut rk = [0u8; 64];
+    for (i, b) in rk.iter_mut().enumerate() {
+        *b = (seed as u8).wrapping_add(i as u8).wrapping_mul(37) ^ tag;
+    }
+    let mut c = EndpointConfig::new(Arc::new(RingHmac(ring::hmac::Key::new(ring::hmac::HMAC_SHA256, &rk))));
+    let mut s = [0u8; 32];
+    for (i, b) in s.iter_mut().enumerate() {
+        *b = (seed >> (i % 8)) as u8 ^ tag ^ (i as u8);
+    }
+    c.rng_seed(Some(s));
+    c.cid_generator(Arc::new(move || Box::new(SeqCid { next: 0, tag }) as Box<dyn quinn::ConnectionIdGenerator>));
+    c
+}
+fn transport(p: &P) -> TransportConfig {
+    let mut t = TransportConfig::default();
+    let idle = p.get(k::IDLE_MS, 30_000);
+    if idle == 0 {
+        t.max_idle_timeout(None);
+    } else {
+        t.max_idle_timeout(Some(IdleTimeout::try_from(Duration::from_millis(idle as u64)).unwrap()));
+    }
+    if p.get(k::SEND_WINDOW, 0) > 0 {
+        t.send_window(p.get(k::SEND_WINDOW, 0) as u64);
+    }
+    if p.get(k::STREAM_RWND, 0) > 0 {
+        t.stream_receive_window(VarInt::from_u64(p.get(k::STREAM_RWND, 0) as u64).unwrap());
+    }
+    if p.get(k::RWND, 0) > 0 {
+        t.receive_window(VarInt::from_u64(p.get(k::RWND, 0) as u64).unwrap());
+    }
+    t.max_concurrent_bidi_streams(VarInt::from_u64(p.get(k::MAX_BIDI, 100) as u64).unwrap());
+    t.max_concurrent_uni_streams(VarInt::from_u64(p.get(k::MAX_UNI, 100) as u64).unwrap());
+    t.mtu_discovery_config(None);
+    t.enable_segmentation_offload(false);
+    if p.get(k::DGRAM_SEND_BUF, 0) > 0 {
+        t.datagram_send_buffer_size(p.get(k::DGRAM_SEND_BUF, 0) as usize);
+    }
+    t
+}
+
+// ------------------------------------------------------------------------------------------
+// executor
+thread_local! {
+    static PROBES: RefCell<Vec<(usize, quinn::verif_hooks::ConnProbe)>> = RefCell::new(Vec::new());
+}
+struct Task {
+    fut: Option<Pin<Box<dyn Future<Output = ()>>>>,
+    kind: i128, // 0 endpoint driver 1 connection driver 2 application
+    ep: usize,
+    wk: Arc<TaskWaker>,
+    st: Option<Rc<TaskSt>>,
+}
+
+fn new_ctx(sh: &Arc<Sh>, w: &Rc<World>, ep: usize, seed: u64) -> (Ctx, Rc<TaskSt>) {
+    let st = Rc::new(TaskSt {
+        cur_op: Cell::new((-1, 0, -1)),
+        forced: Cell::new(false),
+        progressed: Cell::new(false),
+        last_op: Cell::new(-1),
+        rng: RefCell::new(Rng::new(seed)),
+        cancel_pm: w.p.get(k::CANCEL, 0),
+    });
+    (Ctx { sh: sh.clone(), task: Rc::new(Cell::new(-1)), ep, st: st.clone(), w: w.clone() }, st)
+}
+fn push_app<F: Future<Output = ()> + 'static>(sh: &Arc<Sh>, w: &Rc<World>, ep: usize, seed: u64, mk: impl FnOnce(Ctx) -> F) {
+    let (cx, st) = new_ctx(sh, w, ep, seed);
+    let cell = cx.task.clone();
+    let fut = mk(cx);
+    NEWQ.with(|q| q.borrow_mut().push(NewTask::App(ep, st, cell, Box::pin(fut))));
+}
+
+pub fn run_case(ops: &[Vec<i128>]) -> Vec<Vec<i128>> {
+    let p = P::from_ops(ops);
+    let seed = p.get(k::SEED, 1) as u64;
+    let caddr = SocketAddr::new(IpAddr::V4(Ipv4Addr::new(10, 0, 0, 1)), 40000);
+    let saddr = SocketAddr::new(IpAddr::V4(Ipv4Addr::new(10, 0, 0, 2)), 4433);
+    let dmin = p.get(k::DELAY_MIN, 5000) as u64;
+    let sh = Arc::new(Sh {
+        base: Instant::now(),
+        now: AtomicU64::new(0),
+        cur: AtomicI64::new(-1),
+        opid: AtomicU64::new(0),
+        trace: Mutex::new(Vec::new()),
+        inner: Mutex::new(Inner {
+            net_rng: Rng::new(seed ^ 0xA5A5_5A5A),
+            timers: BTreeMap::new(),
+            next_timer: 0,
+            net: Vec::new(),
+            seq: 0,
+            socks: vec![
+                SockSt { addr: caddr, inbox: VecDeque::new(), rwaker: None, sends: 0 },
+                SockSt { addr: saddr, inbox: VecDeque::new(), rwaker: None, sends: 0 },
+            ],
+            loss: p.get(k::LOSS, 0),
+            dup: p.get(k::DUP, 0),
+            dmin,
+            dmax: (p.get(k::DELAY_MAX, dmin as i128) as u64).max(dmin),
+            send_block: p.get(k::SEND_BLOCK, 0),
+            ioerr_after: p.get(k::IOERR_AFTER, -1),
+        }),
+    });
+    NEWQ.with(|q| q.borrow_mut().clear());
+    PROBES.with(|q| q.borrow_mut().clear());
+    let sh2 = sh.clone();
+    let r = std::panic::catch_unwind(std::panic::AssertUnwindSafe(move || run(sh2, p, saddr)));
+    if r.is_err() {
+        let t = sh.t();
+        sh.log(vec![16, t, 1]);
+        // the world may hold poisoned locks: never run its destructors
+        NEWQ.with(|q| std::mem::forget(std::mem::take(&mut *q.borrow_mut())));
+    }
+    PROBES.with(|q| q.borrow_mut().clear());
+    let tr = std::mem::take(&mut *sh.trace.lock().unwrap());
+    tr
+}
+
+fn run(sh: Arc<Sh>, p: P, saddr: SocketAddr) {
+    let seed = p.get(k::SEED, 1) as u64;
+    let (cert, key) = load_cert();
+    let certd = quinn::rustls::pki_types::CertificateDer::from(cert);
+    let keyd = quinn::rustls::pki_types::PrivateKeyDer::Pkcs8(key.into());
+    let mut scfg = ServerConfig::with_single_cert(vec![certd.clone()], keyd).unwrap();
+    scfg.transport_config(Arc::new(transport(&p)));
+    let mut roots = quinn::rustls::RootCertStore::empty();
+    roots.add(certd).unwrap();
+    let mut ccfg = ClientConfig::with_root_certificates(Arc::new(roots)).unwrap();
+    ccfg.transport_config(Arc::new(transport(&p)));
+
+    let mut sched = Rng::new(seed ^ 0x5DEECE66D);
+    let n_jobs = p.get(k::NUNI, 1) + p.get(k::NBIDI, 0) + if p.get(k::NDGRAM, 0) > 0 { 1 } else { 0 };
+    let w = Rc::new(World {
+        conn: [Slot::new(), Slot::new()],
+        jobs: Counter { n: Cell::new(n_jobs as i64), wakers: RefCell::new(Vec::new()) },
+        echoes: Counter { n: Cell::new(0), wakers: RefCell::new(Vec::new()) },
+        saddr,
+        p,
+    });
+    let p = &w.p;
+    let max_time = p.get(k::MAX_TIME, 120_000_000) as u64;
+    let spurious = p.get(k::SPURIOUS, 0);
+
+    // endpoints (their drivers are spawned through the runtime)
+    let cep = Endpoint::new_with_abstract_socket(
+        ep_config(0xC1, seed),
+        None,
+        Box::new(SimSocket { ep: 0, sh: sh.clone() }),
+        Arc::new(SimRuntime { ep: 0, sh: sh.clone() }),
+    )
+    .unwrap();
+    cep.set_default_client_config(ccfg);
+    let sep = Endpoint::new_with_abstract_socket(
+        ep_config(0x5E, seed ^ 0xABCD),
+        Some(scfg),
+        Box::new(SimSocket { ep: 1, sh: sh.clone() }),
+        Arc::new(SimRuntime { ep: 1, sh: sh.clone() }),
+    )
+    .unwrap();
+
+    // application tasks
+    let mut ts = Rng::new(seed ^ 0x7777);
+    {
+        let sep2 = sep.clone();
+        push_app(&sh, &w, 1, ts.next(), move |cx| server_accept(cx, sep2));
+        push_app(&sh, &w, 1, ts.next(), move |cx| server_main(cx, sep));
+        for _ in 0..p.get(k::NACCEPTORS, 1).max(1) {
+            push_app(&sh, &w, 1, ts.next(), server_acc_uni);
+        }
+        push_app(&sh, &w, 1, ts.next(), server_acc_bi);
+        push_app(&sh, &w, 1, ts.next(), |cx| dgram_reader(cx, 1, true));
+        push_app(&sh, &w, 0, ts.next(), move |cx| client_main(cx, cep));
+        for i in 0..p.get(k::NUNI, 1) {
+            push_app(&sh, &w, 0, ts.next(), move |cx| client_uni(cx, i as usize));
+        }
+        for i in 0..p.get(k::NBIDI, 0) {
+            push_app(&sh, &w, 0, ts.next(), move |cx| client_bi(cx, i as usize));
+        }
+        if p.get(k::NDGRAM, 0) > 0 {
+            push_app(&sh, &w, 0, ts.next(), dgram_sender);
+            push_app(&sh, &w, 0, ts.next(), |cx| dgram_reader(cx, 0, false));
+        }
+        let hang = p.get(k::HANG_OPS, 0);
+        for bit in [1, 2, 4, 8, 16] {
+            if hang & bit != 0 {
+                push_app(&sh, &w, 0, ts.next(), move |cx| hang_task(cx, bit));
+            }
+        }
+    }
+
+    let mut tasks: Vec<Task> = Vec::new();
+    let mut ep_seen = [false; 2];
+    let mut last_snap: Vec<Vec<i128>> = vec![Vec::new(), Vec::new()];
+    let mut steps: u64 = 0;
+    let mut quiesced = 0;
+    let mut semis = 0;
+    let end_reason;
+    loop {
+        // adopt new tasks
+        let newq: Vec<NewTask> = NEWQ.with(|q| std::mem::take(&mut *q.borrow_mut()));
+        for nt in newq {
+            let id = tasks.len();
+            let wk = Arc::new(TaskWaker { id, runnable: AtomicBool::new(true), sh: sh.clone() });
+            match nt {
+                NewTask::Quinn(ep, fut) => {
+                    let kind = if ep_seen[ep] { 1 } else { 0 };
+                    ep_seen[ep] = true;
+                    sh.log(vec![33, sh.t(), id as i128, kind, ep as i128]);
+                    tasks.push(Task { fut: Some(fut), kind, ep, wk, st: None });
+                }
+                NewTask::App(ep, st, cell, fut) => {
+                    sh.log(vec![33, sh.t(), id as i128, 2, ep as i128]);
+                    cell.set(id as i128);
+                    tasks.push(Task { fut: Some(fut), kind: 2, ep, wk, st: Some(st) });
+                }
+            }
+        }
+        steps += 1;
+        if steps > 400_000 {
+            end_reason = 3;
+            break;
+        }
+        let now = sh.now.load(Ordering::Relaxed);
+        if now > max_time {
+            end_reason = 2;
+            break;
+        }
+        let runnable: Vec<usize> = tasks
+            .iter()
+            .enumerate()
+            .filter(|(_, t)| t.fut.is_some() && t.wk.runnable.load(Ordering::Relaxed))
+            .map(|(i, _)| i)
+            .collect();
+        let mut pick = None;
+        let mut spur = 0;
+        if !runnable.is_empty() {
+            pick = Some(runnable[sched.below(runnable.len() as u64) as usize]);
+            if spurious > 0 && sched.chance(spurious) {
+                let live: Vec<usize> = tasks.iter().enumerate().filter(|(_, t)| t.fut.is_some()).map(|(i, _)| i).collect();
+                let c = live[sched.below(live.len() as u64) as usize];
+                if !tasks[c].wk.runnable.load(Ordering::Relaxed) {
+                    spur = 1;
+                }
+                pick = Some(c);
+            }
+        }
+        let Some(i) = pick else {
+            // nothing runnable: advance virtual time to the next timer / delivery
+            let next = {
+                let g = sh.inner.lock().unwrap();
+                let a = g.timers.values().filter(|(_, w)| w.is_some()).map(|(d, _)| *d).min();
+                let b = g.net.iter().map(|p| p.at).min();
+                match (a, b) {
+                    (Some(x), Some(y)) => Some(x.min(y)),
+                    (x, y) => x.or(y),
+                }
+            };
+            match next {
+                Some(t) => {
+                    let t = t.max(now);
+                    if t >= now + 50_000 && semis < 400 {
+                        // the clock is about to jump: same check as at quiescence
+                        semis += 1;
+                        forced_round(&sh, &mut tasks, -1, 1);
+                        let more = NEWQ.with(|q| !q.borrow().is_empty())
+                            || tasks.iter().any(|t| t.fut.is_some() && t.wk.runnable.load(Ordering::Relaxed));
+                        if more {
+                            continue;
+                        }
+                    }
+                    sh.now.store(t, Ordering::Relaxed);
+                    let mut wake: Vec<Waker> = Vec::new();
+                    {
+                        let mut g = sh.inner.lock().unwrap();
+                        let mut due: Vec<Pkt> = Vec::new();
+                        let mut k2 = 0;
+                        while k2 < g.net.len() {
+                            if g.net[k2].at <= t {
+                                due.push(g.net.swap_remove(k2));
+                            } else {
+                                k2 += 1;
+                            }
+                        }
+                        due.sort_by_key(|p| (p.at, p.seq));
+                        for pk in due {
+                            let s = &mut g.socks[pk.dst];
+                            s.inbox.push_back((pk.src, pk.data));
+                            if let Some(w) = s.rwaker.take() {
+                                wake.push(w);
+                            }
+                        }
+                        for (_, e) in g.timers.iter_mut() {
+                            if e.0 <= t {
+                                if let Some(w) = e.1.take() {
+                                    wake.push(w);
+                                }
+                            }
+                        }
+                    }
+                    for w in wake {
+                        w.wake();
+                    }
+                    continue;
+                }
+                None => {
+                    // QUIESCENT
+                    let any = forced_round(&sh, &mut tasks, quiesced, 0);
+                    quiesced += 1;
+                    let more = NEWQ.with(|q| !q.borrow().is_empty())
+                        || tasks.iter().any(|t| t.fut.is_some() && t.wk.runnable.load(Ordering::Relaxed));
+                    if (any || more) && quiesced < 50 {
+                        continue;
+                    }
+                    end_reason = 1;
+                    break;
+                }
+            }
+        };
+        let _ = poll_task(&sh, &mut tasks, i, spur);
+        // waiter-set snapshots after the step (logged when changed)
+        PROBES.with(|q| {
+            for (side, pr) in q.borrow().iter() {
+                let snap = pr.snapshot().unwrap_or_default();
+                if snap != last_snap[*side] {
+                    let mut r = vec![27, sh.t(), *side as i128, if snap.is_empty() { 0 } else { 1 }];
+                    r.extend(snap.iter().copied());
+                    sh.log(r);
+                    last_snap[*side] = snap;
+                }
+            }
+        });
+        sh.log(vec![40, sh.t()]);
+    }
+    let live_app = tasks.iter().filter(|t| t.fut.is_some() && t.kind == 2).count() as i128;
+    let live_cd = tasks.iter().filter(|t| t.fut.is_some() && t.kind == 1).count() as i128;
+    let live_ed = tasks.iter().filter(|t| t.fut.is_some() && t.kind == 0).count() as i128;
+    sh.log(vec![10, sh.t(), end_reason, steps as i128, live_app, live_cd, live_ed]);
+    // tear the world down quietly (outside the trace)
+    sh.cur.store(-2, Ordering::Relaxed);
+    let n = sh.trace.lock().unwrap().len();
+    drop(tasks);
+    NEWQ.with(|q| q.borrow_mut().clear());
+    sh.trace.lock().unwrap().truncate(n);
+}
+
+
+/// Nothing is runnable: by the wake-up invariant every pending operation's condition is false.
+/// Poll every live task once more, application operations with a FRESH future; `lost` = an
+/// operation completed although nobody woke its task. `semi` = 1: timers are still pending (the
+/// clock is about to jump), 0: full quiescence.
+fn forced_round(sh: &Arc<Sh>, tasks: &mut Vec<Task>, n: i128, semi: i128) -> bool {
+    let live_app = tasks.iter().filter(|t| t.fut.is_some() && t.kind == 2).count();
+    let live_drv = tasks.iter().filter(|t| t.fut.is_some() && t.kind != 2).count();
+    sh.log(vec![29, sh.t(), n, live_app as i128, live_drv as i128, semi]);
+    let mut any = false;
+    for i in 0..tasks.len() {
+        if tasks[i].fut.is_none() || (semi == 1 && tasks[i].kind != 2) {
+            continue;
+        }
+        let before = tasks[i].st.as_ref().map(|s| s.cur_op.get()).unwrap_or((-1, 0, -1));
+        if semi == 1 && before.0 < 0 {
+            continue;
+        }
+        if let Some(st) = &tasks[i].st {
+            st.forced.set(true);
+            st.progressed.set(false);
+        }
+        let done = poll_task(sh, tasks, i, 2);
+        let prog = tasks[i].st.as_ref().map(|s| s.progressed.get()).unwrap_or(false);
+        if let Some(st) = &tasks[i].st {
+            st.forced.set(false);
+        }
+        // a forced poll that completes a quinn operation = its wake-up was lost;
+        // a driver that finishes only when forced likewise
+        let lost = (prog && before.0 >= 0) || (done && tasks[i].kind != 2);
+        sh.log(vec![30, sh.t(), i as i128, tasks[i].kind, before.0, before.1, before.2, lost as i128]);
+        if prog || done {
+            any = true;
+        }
+    }
+    any
+}
+
+/// poll task `i` once; mode 0 normal, 1 spurious, 2 forced. Returns whether it finished.
+fn poll_task(sh: &Arc<Sh>, tasks: &mut [Task], i: usize, mode: i128) -> bool {
+    let waker = Waker::from(tasks[i].wk.clone());
+    let mut cx = Context::from_waker(&waker);
+    tasks[i].wk.runnable.store(false, Ordering::Relaxed);
+    sh.cur.store(i as i64, Ordering::Relaxed);
+    let r = tasks[i].fut.as_mut().unwrap().as_mut().poll(&mut cx);
+    sh.cur.store(-1, Ordering::Relaxed);
+    let op = tasks[i].st.as_ref().map(|s| s.cur_op.get()).unwrap_or((-1, 0, -1));
+    let done = r.is_ready();
+    sh.log(vec![20, sh.t(), i as i128, tasks[i].kind, done as i128, mode, op.0, op.1, op.2]);
+    if done {
+        sh.cur.store(i as i64, Ordering::Relaxed);
+        tasks[i].fut = None;
+        sh.cur.store(-1, Ordering::Relaxed);
+        sh.log(vec![26, sh.t(), i as i128, tasks[i].kind, tasks[i].ep as i128]);
+    }
+    done
 }
